@@ -8,6 +8,7 @@ from collections import Counter
 from harness import c09_lib as L
 
 
+H_INT64_MAX = 9223372036854775807
 BINARY_OPS = ["Add", "And", "BitShift", "BitwiseAnd", "BitwiseOr", "BitwiseXor", "Div", "Equal", "Greater",
               "GreaterOrEqual", "Less", "LessOrEqual", "Mod", "Mul", "Or", "Pow", "PRelu", "Sub", "Xor"]
 
@@ -113,6 +114,67 @@ def gen_helper_cases(rng, R: L.Real, n: int, stats: Counter):
         std = [sd[sax] if rng.random() < 0.6 else L.gen_dim(rng)] + [rng.choice([2, "M", 1]) for _ in range(rng.randint(0, 2))]
         add("ruleScatterDyn", f"scatterDyn {L.enc_oint(sst)} {sax} {L.enc_shape(sd)} {L.enc_shape(std)}",
             lambda a=sst, b=sax, c=sd, d=std: R.rule_scatter_dyn(a, b, c, d))
+        # ---- ScatterAllStatic
+        ds = L.gen_oshape(rng, p_none=0.05, p_unknown=0.08)
+        if ds is not None and not ds:
+            ds = [rng.choice([2, 3])]
+        if ds is not None and rng.random() < 0.7:
+            ds = [rng.choice([0, 1, 2, 3])] + ds[1:]
+        us = ds if rng.random() < 0.75 else L.gen_oshape(rng)
+        n0 = ds[0] if (ds and isinstance(ds[0], int)) else 2
+        r_ = rng.random()
+        if r_ < 0.6:
+            rows = [[i] for i in range(n0)]
+        elif r_ < 0.7:
+            rows = [[i] for i in range(n0 + 1)]
+        elif r_ < 0.8:
+            rows = [[i] for i in reversed(range(n0))]
+        elif r_ < 0.9:
+            rows = [[i, 0] for i in range(n0)]
+        else:
+            rows = None
+        red = rng.choice([None, "none", "none", "add"])
+        enc_rows = "N" if rows is None else ("-" if not rows else ";".join(",".join(map(str, r)) for r in rows))
+        add("ruleScatterStatic", f"scatterStatic {0 if red == 'add' else 1} {L.enc_shape(ds)} {L.enc_shape(us)} {enc_rows}",
+            lambda a=red, b=ds, c=us, d=rows: R.rule_scatter_static(a, b, c, d))
+        # ---- collapse_slice rules
+        cd = L.gen_oshape(rng, p_none=0.06)
+        if cd is not None and not cd:
+            cd = [L.gen_dim(rng)]
+        rk = len(cd) if cd else 2
+        cax = rng.randint(-rk, rk - 1)
+        dd = cd[cax] if cd else None
+        cst = rng.choice([0, 0, 0, 0, 1, -1])
+        cen = rng.choice([H_INT64_MAX, H_INT64_MAX, 1, 2, 3, 7, 8, (dd if isinstance(dd, int) else 5)])
+        csp = rng.choice([1, 1, 1, 1, 2, -1])
+
+        def cv(v):
+            r2 = rng.random()
+            return None if r2 < 0.06 else ([v, v] if r2 < 0.12 else [v])
+
+        a_st, a_en, a_ax, a_sp = cv(cst), cv(cen), cv(cax), cv(csp)
+
+        def one(v):
+            return None if (v is None or len(v) != 1) else v[0]
+
+        add("ruleCollapseSlice1",
+            f"redundantSlice {L.enc_oint(one(a_st))} {L.enc_oint(one(a_en))} {L.enc_oint(one(a_ax))} {L.enc_oint(one(a_sp))} {L.enc_shape(cd)}",
+            lambda a=a_st, b=a_en, c=a_ax, d=a_sp, e=cd: R.rule_collapse_slice(1, a, b, c, d, e, None))
+        co = cd if rng.random() < 0.6 else (L.mutate_shape(rng, cd) if cd is not None else L.gen_oshape(rng))
+        if rng.random() < 0.08:
+            co = None
+        add("ruleCollapseSlice2", f"sliceSameShape {L.enc_shape(cd)} {L.enc_shape(co)} {L.enc_ints(a_sp)}",
+            lambda a=a_st, b=a_en, c=a_ax, d=a_sp, e=cd, f=co: R.rule_collapse_slice(2, a if a else [0], b if b else [5], c if c else [0], d, e, f))
+        # ---- SqueezeReshape1d and get_shape_value
+        sx = L.gen_oshape(rng, p_none=0.1, max_rank=2)
+        add("ruleSqueezeReshape", f"squeezeReshape {L.enc_shape(sx)}", lambda a=sx: R.rule_squeeze_reshape(a))
+        gk = rng.choice(["c", "c", "c", "n"])
+        gi = rng.random() < 0.8
+        gn = rng.choice([1, 1, 1, 0, 2])
+        gv = [rng.choice([0, 1, 2, 3, -1, 7]) for _ in range(1 if gn == 0 else rng.choice([0, 1, 2, 3, 10, 11, 12]))]
+        gs = gen_shape_value(rng, p_none=0.4)
+        add("getShapeValue", f"getShapeValue {gk} {1 if gi else 0} {gn} {L.enc_ints(gv)} {L.enc_shape(gs)}",
+            lambda a=gk, b=gi, c=gn, d=gv, e=gs: R.get_shape_value(a, b, c, d, e))
         # ---- evaluators
         s = L.gen_oshape(rng)
         st = rng.choice([0, 0, 0, 1, 2, -1, -2, 5, -7])
@@ -253,6 +315,8 @@ def branch_of(kind: str, answer: str) -> str:
         return kind + ":" + a.split(":")[0]
     if kind == "expandRemovable":
         return kind + ":" + a.split(":")[0]
+    if kind == "getShapeValue":
+        return kind + ":" + ("N" if a == "N" else "some")
     if kind == "ruleExpandBinary":
         p = a.split(":")
         return kind + ":side" + p[1] + ":" + p[2]
